@@ -180,6 +180,15 @@ Reach(S, E) == LET S2 == S \cup { e[2] : e \in { e \in E : e[1] \in S } }
                IN IF S2 = S THEN S ELSE Reach(S2, E)
 Connected(d) == Len(d.boxes) <= 1 \/ Reach({1}, WireEdges(d)) = 1..Len(d.boxes)
 
+\* the longest chain of boxes joined by wires (a lower bound for the depth of any foliation)
+RECURSIVE ChainTo(_, _)
+ChainTo(E, k) == LET preds == { e[1] : e \in { e \in E : e[2] = k } } IN
+                 IF preds = {} THEN 1
+                 ELSE 1 + ChainTo(E, CHOOSE p \in preds : \A q \in preds : ChainTo(E, p) >= ChainTo(E, q))
+LongestChain(d) == IF Len(d.boxes) = 0 THEN 0
+                   ELSE LET E == WireEdges(d) k == CHOOSE k \in 1..Len(d.boxes) : \A j \in 1..Len(d.boxes) : ChainTo(E, k) >= ChainTo(E, j)
+                        IN ChainTo(E, k)
+
 \* same boxes as a multiset
 Count(bs, b) == Cardinality({ k \in 1..Len(bs) : bs[k] = b })
 SameBoxes(a, b) == /\ Len(a.boxes) = Len(b.boxes)
